@@ -84,8 +84,20 @@ def main(argv=None):
             prog.flush()
 
     out = R.dump()
-    out.update(statuses=statuses, errors=errors, n_cases=len(cases), wall_s=time.time() - t0,
-               instr=instr.report(ctx))
+    rep = instr.report(ctx)
+    # named source lines the property requires its workload to reach (DESIGN 3.4): resolved by pattern, not by number
+    import re
+    named = {}
+    for name, (rel, pattern) in getattr(mod, 'REACH_REQUIRED', {}).items():
+        try:
+            src = open(os.path.join(repo, 'pb_bss', rel)).read().split('\n')
+        except OSError:
+            named[name] = 0
+            continue
+        nums = [i + 1 for i, l in enumerate(src) if re.search(pattern, l)]
+        named[name] = int(any((rel, n) in ctx.lines for n in nums)) if nums else 0
+    rep['reach_named'] = named
+    out.update(statuses=statuses, errors=errors, n_cases=len(cases), wall_s=time.time() - t0, instr=rep)
     with open(a.out, 'w') as f:
         json.dump(out, f)
     return 0
